@@ -96,6 +96,14 @@ func (t *loopTr) setupRecv() {
 	}
 	rid := fd.Recv.List[0].Names[0]
 	ro := t.info.Defs[rid]
+	if id := t.sliceRecv(); id != nil {
+		// `func (p Path) m(…)`, Path a named slice type: the receiver is an ordinary (first) parameter (loops_strs.go)
+		if t.recursive {
+			t.fail(fd, "a recursive method with a value receiver of a slice type is not supported")
+		}
+		t.recvParam = id
+		return
+	}
 	ptr, ok := ro.Type().(*types.Pointer)
 	if !ok {
 		t.fail(fd, "%s", shape)
@@ -256,6 +264,9 @@ func (t *loopTr) assignIndex(s ast.Node, l *ast.IndexExpr, value func(cur string
 	if ak == kMarshs {
 		t.fail(s, "index assignment to a slice of encoding.BinaryMarshaler: such slices are read-only in the translated subset")
 	}
+	if ak == kStrings {
+		t.fail(s, "index assignment to a []string: such slices are read-only in the translated subset")
+	}
 	f := t.facts
 	name, local := t.vars[o]
 	switch {
@@ -341,7 +352,7 @@ func (t *loopTr) multiAssign(s *ast.AssignStmt) []binding {
 		for _, r := range s.Rhs {
 			t.noAlias(r, "assignment")
 			v, k := t.expr(r)
-			if k.isSlice() || k == kString {
+			if k.isSlice() || k == kString || k == kStrings {
 				t.fail(r, "multiple assignment of slices is not supported (aliasing-sensitive)")
 			}
 			st := t.freshName()
@@ -416,6 +427,9 @@ func (t *loopTr) tupleCall(x *ast.CallExpr) (string, []lkind) {
 	}
 	if o, _ := t.hashCall(x); o != nil {
 		t.fail(x, "the results of a method of a hash.Hash are not modelled: h.Write(…) is only supported as a statement of its own")
+	}
+	if text, kinds, ok := t.externTuple(x); ok {
+		return text, kinds // a library function that is a parameter of the translation (loops_strs.go)
 	}
 	id, ok := unparen(x.Fun).(*ast.Ident)
 	if !ok {
@@ -537,6 +551,7 @@ func (t *loopTr) prefixReslice(s *ast.AssignStmt, o types.Object, hi ast.Expr) [
 		// a local slice (it owns its array): the prefix, as a value.  It now has spare capacity, which is not modelled:
 		// slicing it again with an upper bound, or passing it to a callee that does, is rejected (spareCap).
 		k := t.kindOf(o.Type(), s)
+		t.noStrings(k, s, "reslicing a variable")
 		var n string
 		if tv := t.typeOf(hi); tv.Value != nil {
 			c := constant.ToInt(tv.Value)
